@@ -57,7 +57,10 @@ QuoteSeqs(q) == Seqs3(q, {"squote", "dquote", "btick", "dollar", "lbrace"}) \cup
 SpecialSeqs(q) ==
   {s \in {<<Elem("dollar", "bs"), PrefEl("lbrace", q)>>, <<PrefEl("dollar", q), Elem("lbrace", "bs")>>,
           <<Elem("nul", "bs"), PrefEl("d8", q)>>, <<Elem("nul", "bs"), PrefEl("d9", q)>>, <<Elem("nul", "bs"), PrefEl("letter", q)>>,
-          <<Elem("nul", "bs"), Elem("d9", "u")>>, <<Elem("nul", "oct"), PrefEl("d9", q)>>, <<Elem("d8", "oct"), Elem("d9", "oct")>>}
+          <<Elem("nul", "bs"), Elem("d9", "u")>>, <<Elem("nul", "oct"), PrefEl("d9", q)>>, <<Elem("d8", "oct"), Elem("d9", "oct")>>,
+          \* <CR><LF> in the value (escaped), and the raw pair that a template normalises to one <LF>
+          <<Elem("cr", "named"), Elem("lf", "named")>>, <<Elem("cr", "named"), PrefEl("lf", q)>>, <<Elem("cr", "raw"), Elem("lf", "raw")>>,
+          <<Elem("cr", "raw"), Elem("lf", "named")>>}
      : \A i \in 1..Len(s) : Allowed(s[i][1], s[i][2], q)}
 (* quick: one quote kind per (class, spelling) in rotation, all quote kinds for the quote-sensitive classes *)
 Singles(q) ==
@@ -104,7 +107,9 @@ CtxsFor(i, s, q) ==
       R == Rotating(q)
       \* the strict context is the expr context behind a `use strict` directive: it stands for both unless the body is sloppy-only
       base == IF q = "tag" THEN {"tag"} ELSE IF q = "tpl" \/ goal = "sloppy" THEN {"expr"} ELSE {"strict"}
-      rot == IF Len(R) = 0 THEN {} ELSE {R[((i + Seed) % Len(R)) + 1]} IN
+      \* the text `use strict` always goes to the directive position as well (the directive must be recognised iff unescaped)
+      rot == (IF Len(R) = 0 THEN {} ELSE {R[((i + Seed) % Len(R)) + 1]})
+             \cup (IF q \in {"sq", "dq"} /\ \E k \in 1..Len(s) : s[k][1] = "usestrict" THEN {"dir"} ELSE {}) IN
   {n \in (IF Size >= 3 /\ Len(s) <= 2 /\ (\A k \in 1..Len(s) : s[k] = PrefEl(s[k][1], q)) THEN CtxNames(q, FALSE) ELSE base \cup rot) : ok(n)}
 
 StrCase(i, s, q) ==
